@@ -563,6 +563,19 @@ def install(I):
     def _warn(I, fr, args, kwargs):
         fr.st.events.append(('warn', args[0] if args else None))
 
+    def _copy(I, fr, args, kwargs):
+        v = args[0]
+        if isinstance(v, ip.Obj) and I._has_dunder(v, '__copy__'):
+            return I.call(I._getattr(v, '__copy__', fr), [], {}, fr)
+        if isinstance(v, (int, float, complex, str, tuple, S, C, type(None))):
+            return v
+        if isinstance(v, list):
+            return list(v)
+        if isinstance(v, dict):
+            return dict(v)
+        raise Unsupported('copy.copy of %r' % (v,))
+
+    I.ext_modules['copy'] = PyModule('copy', {'copy': bi('copy', _copy), 'deepcopy': bi('deepcopy', _copy)})
     I.ext_modules['warnings'] = PyModule('warnings', {'warn': bi('warn', _warn)})
     I.ext_modules['builtins'] = PyModule('builtins', {'object': ip.OBJECT, 'super': B['super'], 'range': B['range'], 'str': B['str'], 'zip': B['zip'], 'int': B['int'], 'map': B['map'], 'basestring': B['basestring']})
     I.ext_modules['future'] = PyModule('future', {})
